@@ -564,10 +564,12 @@ func sessionChargingReservation(
 			usedQuota := uint64(totalUsedUnit * ue.UnitCost[rg])
 			requestedQuota = uint64(uint32(unitUsage.RequestedUnit.TotalVolume) * ue.UnitCost[rg])
 			ue.ReservedQuota[rg] -= int64(usedQuota)
-			NeedReserveQuota := !(ue.ReservedQuota[rg] > 0)
+			// keep the reservation topped up to the requested quota, so that every unit
+			// granted below is backed by money already taken from the account
+			NeedReserveQuota := ue.ReservedQuota[rg] < int64(requestedQuota)
 
 			if NeedReserveQuota {
-				reserveQuota := -uint64(ue.ReservedQuota[rg]) + requestedQuota
+				reserveQuota := uint64(int64(requestedQuota) - ue.ReservedQuota[rg])
 				ccr.CcRequestType = charging_datatype.UPDATE_REQUEST
 				ccr.RequestedAction = charging_datatype.DIRECT_DEBITING
 				ccr.MultipleServicesCreditControl = &charging_datatype.MultipleServicesCreditControl{
@@ -598,9 +600,18 @@ func sessionChargingReservation(
 				}
 			}
 
+			// grant only what the reservation actually held can pay for
+			monetaryQuota := requestedQuota
+			if ue.ReservedQuota[rg] < int64(requestedQuota) {
+				monetaryQuota = 0
+				if ue.ReservedQuota[rg] > 0 {
+					monetaryQuota = uint64(ue.ReservedQuota[rg])
+				}
+			}
+
 			sur.ServiceRating = &charging_datatype.ServiceRating{
 				ServiceIdentifier: datatype.Unsigned32(rg),
-				MonetaryQuota:     datatype.Unsigned32(requestedQuota),
+				MonetaryQuota:     datatype.Unsigned32(monetaryQuota),
 				RequestSubType:    charging_datatype.REQ_SUBTYPE_RESERVE,
 			}
 
